@@ -20,6 +20,9 @@ EXPLANATION = (
     'includes shape equality with the window) fails, and the trace-count slot is the window grid. C11.3: plane '
     'ordinal = IL origin + set*bs0 + i and the crossline cut is [first : last+1]. C11.4: the CLI forwards the four '
     'window options to the converter parameters of the same name.')
+EXPLANATION += (
+    ' ADDED: C11.2 also requires the count / size fields of the fresh header to come from the output geometry and the self-test oracle of C01.4; C11.3 includes the whole-file precondition of the reduced-I/O reader and the branch-sensitive plane ordinal.'
+)
 ASSUMPTIONS = ['segyio addresses inlines by line number through f.ilines[ordinal] and headers by trace ordinal in file order']
 NOT_DECIDED = 'Equality of the windowed file with the file made from a pre-cut SEG-Y (needs execution).'
 
